@@ -181,10 +181,27 @@ def check_stack_lower_bound(ctx, prog):
                    root.loc)
 
 
-def _const_of(f, op):
+def _resolved_origins(prog, f, op):
+    os_ = flow.origins(f, op)
+    if prog is not None and f.kind == "closure" and any(o.kind == "arg" and o.arg == 1 and o.proj for o in os_):
+        caps = flow.closure_captures(prog, f)
+        more = []
+        for o in os_:
+            if o.kind == "arg" and o.arg == 1 and o.proj:
+                try:
+                    i_ = int(o.proj[0])
+                except ValueError:
+                    i_ = None
+                if i_ is not None and i_ < len(caps):
+                    more += caps[i_]
+        os_ = [o for o in os_ if not (o.kind == "arg" and o.arg == 1 and o.proj)] + more
+    return os_
+
+
+def _const_of(f, op, prog=None):
     """(named constant or integer) a call argument is built from"""
     out = set()
-    for o in flow.origins(f, op):
+    for o in _resolved_origins(prog, f, op):
         if o.kind == "const":
             out.add(o.const.get("named") or o.const.get("int"))
         elif o.kind == "bin":
@@ -255,13 +272,13 @@ def check_depth_accounting(ctx, prog, tag):
     for c in prog.calls_of(DECR):
         g = c.fn
         n += 1
-        amt = _const_of(g, c.args[1])
+        amt = _const_of(g, c.args[1], prog)
         charged = set()
         host = prog.fns.get(g.root) if g.kind == "closure" else g
         for h in [g] + ([host] if host is not None and host is not g else []):
             for k in h.calls():
                 if k.name == INCR:
-                    charged |= _const_of(h, k.args[1])
+                    charged |= _const_of(h, k.args[1], prog)
         ctx.ob("C11.R6.decrement-matches-charge", "%s%s" % (tag, g.path), bool(amt) and amt <= charged,
                "decr_depth(%s) does not give back what incr_depth charged (%s)" % (sorted(map(str, amt)), sorted(map(str, charged))),
                g.where(c.bb))
@@ -374,6 +391,19 @@ def run(ctx):
                 n_inc += 1
                 f = c.fn
                 os_ = flow.origins(f, c.args[1])
+                # a captured variable of a closure: look at what the enclosing function put into the capture
+                if f.kind == "closure" and any(o.kind == "arg" and o.arg == 1 and o.proj for o in os_):
+                    caps = flow.closure_captures(prog, f)
+                    more = []
+                    for o in os_:
+                        if o.kind == "arg" and o.arg == 1 and o.proj:
+                            try:
+                                idx_ = int(o.proj[0])
+                            except ValueError:
+                                idx_ = None
+                            if idx_ is not None and idx_ < len(caps):
+                                more += caps[idx_]
+                    os_ = [o for o in os_ if not (o.kind == "arg" and o.arg == 1 and o.proj)] + more
                 named = set()
                 depth_inherited = False
                 for o in os_:
